@@ -6,6 +6,7 @@ from .. import absfont, compile_exec, gen
 PROPERTY = "C01"
 TRACE_MODULE = "PipelineTrace"
 TRACE_CFG = "PipelineTrace.cfg"
+ACCEPTORS = {"_default": ("PipelineTrace", "PipelineTrace.cfg"), "color": ("ColorTrace", "ColorTrace.cfg")}
 RULE = ("random exact-domain UFOs (3-7 glyphs, nested / mirrored / sheared / scaled components, line + cubic + quadratic "
         "segments, k/4 coordinates and advances with .5 ties of both signs) x roundTolerance {None, 0, 0.25, 0.5} x cffVersion "
         "{1, 2} x {defcon, ufoLib2} (one case in six with a skipExportGlyphs list, one in seven a colour font whose layer "
@@ -72,7 +73,7 @@ def cases(tier, seed):
                     ly: {"cs": [[[0, 0, "line"], [100 * PS, 0, "line"], [50 * PS, 80 * PS, "line"]]], "comps": [], "anchors": [],
                          "w": (glyphs[ly]["w"] + 62 * PS) if ly in glyphs else 0, "h": 0, "u": []}}}
                 ufo_lib = dict(ufo_lib)
-                ufo_lib["com.github.googlei18n.ufo2ft.colorPalettes"] = [[[1.0, 0.0, 0.0, 1.0], [0.0, 0.5, 1.0, 1.0]]]
+                ufo_lib["com.github.googlei18n.ufo2ft.colorPalettes"] = [[[1.0, 0.0, 0.0, 1.0], [0.0, 0.4, 1.0, 1.0]]]
                 ufo_lib["com.github.googlei18n.ufo2ft.colorLayerMapping"] = [["color1", 1]]
         ufo_ = {"glyphs": glyphs, "info": {"unitsPerEm": 1000, "ascender": 800, "descender": -200}, "lib": ufo_lib}
         if layers:
@@ -127,7 +128,53 @@ def execute(case):
                 g["comps"] = [dict(c, b=f"{c['b']}.{lname}") for c in g["comps"]]
                 g["u"] = []
                 rec.setdefault("srcExtra", {})[f"{n}.{lname}"] = g
+        crec = _color_record(case, rec)
+        if crec is not None:
+            return [rec, crec]
     return [rec]
+
+
+def _color_record(case, rec):
+    """ColorLayers.tla: the abstract colour font and what the compiled COLR / CPAL / glyph order / cmap show."""
+    import io
+
+    from fontTools.ttLib import TTFont
+
+    from .. import absfont
+
+    if "ret" not in rec or "err" in rec["ret"] or rec.get("skip"):
+        return None
+    ufo = case["ufo"]
+    font = absfont.build_font(ufo, case.get("lib", "ufoLib2"))
+    import ufo2ft
+
+    kw = dict(case.get("kwargs") or {})
+    kw.setdefault("useProductionNames", False)
+    otf = ufo2ft.compileOTF(font, **kw)
+    buf = io.BytesIO()
+    otf.save(buf)
+    f2 = TTFont(io.BytesIO(buf.getvalue()))
+    if "COLR" not in f2 or f2["COLR"].version != 0:
+        return None
+    skip = set(rec["opts"]["skip"])
+    order = [n for n in (ufo.get("glyphNames") or list(ufo["glyphs"])) if n not in skip]
+    layers = []
+    for lname, lg in ufo["layers"].items():
+        layers.append({"name": lname, "glyphs": [{"n": n, "comps": [c["b"] for c in g["comps"]],
+                                                 "same": n in ufo["glyphs"] and {k: v for k, v in g.items() if k != "u"} ==
+                                                 {k: v for k, v in ufo["glyphs"][n].items() if k != "u"} and not ufo["glyphs"][n].get("u")}
+                                                for n, g in lg.items()]})
+    lib = ufo.get("lib") or {}
+    fifths = lambda v: int(round(v * 5))  # noqa
+    colr = f2["COLR"]
+    gid = {n: k for k, n in enumerate(f2.getGlyphOrder())}
+    obs = [{"base": b, "layers": [[l.name, int(l.colorID)] for l in ls]} for b, ls in sorted(colr.ColorLayers.items(), key=lambda kv: gid[kv[0]])]
+    cpal = [[[int(round(c.red)), int(round(c.green)), int(round(c.blue)), int(round(c.alpha))] for c in pal] for pal in f2["CPAL"].palettes]
+    return {"tid": case["cid"] + "/color", "_acc": "color", "glyphs": order, "layers": layers,
+            "mapping": [[l, int(c)] for l, c in lib.get("com.github.googlei18n.ufo2ft.colorLayerMapping", [])], "own": [],
+            "palettes": [[[fifths(v) for v in col] for col in pal] for pal in lib.get("com.github.googlei18n.ufo2ft.colorPalettes", [])],
+            "order": f2.getGlyphOrder(), "colr": obs, "cpal": cpal, "encoded": sorted(set((f2.getBestCmap() or {}).values())),
+            "_sig": [case["cid"], "color"]}
 
 
 def preclassify(rec, rep):
@@ -137,5 +184,7 @@ def preclassify(rec, rep):
 
 
 def nontrivial(rec):
+    if rec.get("_acc") == "color":
+        return len(rec["colr"]) > 0
     return any(g["comps"] for g in rec["src"].values())
 
